@@ -28,7 +28,7 @@ func init() {
 		}}},
 		Run: run,
 		Floors: func(t string) map[string]int64 {
-			m := map[string]int64{"partner.same_datum": 10000, "partner.wgs84_area_of_use": 2000, "partner.wgs84_small_towgs84": 1000, "partner.geographic_without_datum": 1000, "position.conic_near_pole": 300, "position.across_the_antimeridian_of_the_partner_frame": 200, "position.mercator_on_the_antimeridian": 50, "position.conic_at_the_pole": 300, "position.tm_hair_off_equator": 300, "position.tm_at_a_pole": 150, "tmerc.lat_0_at_a_pole": 50, "closure_pair": 5000, "ell.sphere": 60, "units.non_metre": 1000, "pm.set": 500}
+			m := map[string]int64{"transformers.shared_by_the_positions_of_a_case": 3000, "partner.same_datum": 10000, "partner.wgs84_area_of_use": 2000, "partner.wgs84_small_towgs84": 1000, "partner.geographic_without_datum": 1000, "position.conic_near_pole": 300, "position.across_the_antimeridian_of_the_partner_frame": 200, "position.mercator_on_the_antimeridian": 50, "position.conic_at_the_pole": 300, "position.tm_hair_off_equator": 300, "position.tm_at_a_pole": 150, "tmerc.lat_0_at_a_pole": 50, "closure_pair": 5000, "ell.sphere": 60, "units.non_metre": 1000, "pm.set": 500}
 			for _, p := range []string{"longlat", "merc", "lcc", "aea", "eqdc", "tmerc", "utm", "krovak"} {
 				m["proj."+p] = 300
 			}
